@@ -15,7 +15,7 @@ while i < len(args):
     elif patch is None and rev is None and os.path.exists(args[i]): patch = os.path.abspath(args[i]); i += 1
     else: props.append(args[i]); i += 1
 if persist:
-    wt = '/tmp/vmut-persist'
+    wt = os.environ.get('VMUT_DIR', '/tmp/vmut-persist')   # a second sweep can run beside the first with its own directory
     if not os.path.isdir(wt):
         subprocess.check_call(['git', '-C', '/repo', 'worktree', 'add', '--detach', wt, 'HEAD'], stdout=subprocess.DEVNULL, stderr=subprocess.DEVNULL)
     subprocess.check_call(['git', '-C', wt, 'checkout', '-q', '--detach', subprocess.check_output(['git', '-C', '/repo', 'rev-parse', 'HEAD'], text=True).strip()])
